@@ -315,9 +315,11 @@ def run(ctx):
             if ty in FIXED:
                 # fixed width: a panic is a violation when no intermediate of the transcribed evaluation (Model/Fixed.v) leaves the
                 # type's range -- or, independently of the model, when every intermediate is tiny
-                big = max(abs(x.numerator) + x.denominator for x in (Fraction(v) + ca, k, f, k / f, f / k, ex if ex else Fraction(1)))
+                pows = [bcoef ** e for bcoef, e in zip(bc, q["dim"]) if e]
+                big = max(abs(x.numerator) + x.denominator for x in [Fraction(v) + ca, k, f, k / f, f / k, ex if ex else Fraction(1)] + pows)
                 mw = wdecode(wmodel.get(cid), cls == "z") if cid in wmodel else None
-                if big < 2 ** ((STYPES[ty]["hi"].bit_length()) // 2 - 2):
+                if mw is None and big < 2 ** ((STYPES[ty]["hi"].bit_length()) // 2 - 2):
+                    # (only where the width-checked model gave no answer) every intermediate, the single powers of the base factor included, is tiny
                     spec_fail.append((cid, f"conversion panicked although every intermediate is tiny for {ty} (exact result {ex})"))
                 elif mw not in (None, "PANIC"):
                     spec_fail.append((cid, f"conversion panicked although no intermediate overflows {ty} in the order of operations of to_base/from_base "
